@@ -16,10 +16,13 @@ import (
 	"context"
 	"errors"
 	"fmt"
+	"hash/crc32"
 	"io"
 	"math/rand"
+	"net"
 	"net/http"
 	"net/http/httptrace"
+	"os"
 	"sort"
 	"strconv"
 	"strings"
@@ -98,6 +101,13 @@ type rec struct {
 	clean       bool
 	overran     bool
 	handlerDone bool
+	// replay dimension: the first arrival of the request was cut off by the front end
+	killed   int
+	killCL   int64
+	killRead int64
+	killCRC  uint32
+	killFull bool // the front end read the complete body before it closed the connection
+	wireCRC  uint32
 }
 
 type reqDesc struct {
@@ -119,9 +129,11 @@ type reqDesc struct {
 	EffLimit int64  `json:"limit_effective"`
 	List     string `json:"decoder_list"`
 	Cut      int    `json:"cut,omitempty"`
+	Replay   string `json:"replay,omitempty"` // kill-after-body | kill-after-headers | idle-close: make net/http replay the request once
 }
 
 type outcome struct {
+	gotConns   int // connections the transport obtained for this one request (2 = it was replayed)
 	prevOnConn string
 	respBody   string
 	status     int
@@ -143,6 +155,7 @@ type group struct {
 	mu       sync.Mutex
 	recs     map[string]*rec
 	connHist map[string]string
+	conns    map[net.Conn]http.ConnState
 	active   atomic.Int64
 	seq      int
 	raw      *http.Client
@@ -162,26 +175,71 @@ func (g *group) rec(id string) *rec {
 
 type countBody struct {
 	io.ReadCloser
-	n atomic.Int64
+	n   atomic.Int64
+	crc bool
+	sum uint32 // only touched by the goroutine that reads
 }
 
 func (b *countBody) Read(p []byte) (int, error) {
 	n, err := b.ReadCloser.Read(p)
 	b.n.Add(int64(n))
+	if b.crc && n > 0 {
+		b.sum = crc32.Update(b.sum, crc32.IEEETable, p[:n])
+	}
 	return n, err
 }
+
+type connKey struct{}
+
+// connInfo counts the requests one server-side connection has seen.
+type connInfo struct{ n atomic.Int64 }
+
+var (
+	replayAttempts    atomic.Int64 // exchanges sent with a kill order or after a server-side idle close
+	replaysObserved   atomic.Int64 // second arrival of the same request id at the front end / second connection obtained
+	replayFloorFailed bool
+)
 
 // outer sits in front of the confighttp chain and measures the request as it came off the wire.
 func (g *group) outer(next http.Handler) http.Handler {
 	return http.HandlerFunc(func(w http.ResponseWriter, r *http.Request) {
 		id := r.Header.Get("X-Case")
 		rc := g.rec(id)
-		cb := &countBody{ReadCloser: r.Body}
+		kill := r.Header.Get("X-Kill")
+		cb := &countBody{ReadCloser: r.Body, crc: kill != ""}
+		served := int64(0)
+		if ci, ok := r.Context().Value(connKey{}).(*connInfo); ok {
+			served = ci.n.Add(1) - 1
+		}
 		g.mu.Lock()
 		rc.outerSeen++
+		arrival := rc.outerSeen
 		rc.wireCL = r.ContentLength
 		rc.wireCE = r.Header.Get("Content-Encoding")
 		g.mu.Unlock()
+		if kill != "" && arrival == 1 && served >= 1 {
+			// Replay dimension. This connection already served a request, so for the client it is a reused
+			// keep-alive connection: dropping it without an answer makes http.Transport replay an idempotent
+			// request through Request.GetBody on another connection. With "body" the whole request is read
+			// first, so every write of the client has succeeded and only its read fails.
+			var n int64
+			var sum uint32
+			full := kill == "body"
+			if full {
+				n, _ = io.Copy(io.Discard, cb)
+				sum = cb.sum
+			}
+			if hj, ok := w.(http.Hijacker); ok {
+				if conn, _, err := hj.Hijack(); err == nil {
+					g.mu.Lock()
+					rc.killed++
+					rc.killCL, rc.killRead, rc.killCRC, rc.killFull = r.ContentLength, n, sum, full
+					g.mu.Unlock()
+					conn.Close()
+					return
+				}
+			}
+		}
 		// never replace Body on the server's own *http.Request: net/http type-asserts w.req.Body.(*body) to decide
 		// whether a connection with an unread request body may be reused; observe on a shallow copy instead.
 		r = r.WithContext(r.Context())
@@ -190,6 +248,7 @@ func (g *group) outer(next http.Handler) http.Handler {
 		defer func() {
 			g.mu.Lock()
 			rc.wireRead = cb.n.Load()
+			rc.wireCRC = cb.sum
 			g.mu.Unlock()
 			g.active.Add(-1)
 		}()
@@ -256,7 +315,7 @@ func (g *group) inner(w http.ResponseWriter, r *http.Request) {
 }
 
 func startGroup(c *driver.Ctx, limit int64, ls listSpec) (*group, error) {
-	g := &group{c: c, limit: limit, L: limit, ls: ls, recs: map[string]*rec{}, connHist: map[string]string{}, enabled: map[string]bool{}}
+	g := &group{c: c, limit: limit, L: limit, ls: ls, recs: map[string]*rec{}, connHist: map[string]string{}, conns: map[net.Conn]http.ConnState{}, enabled: map[string]bool{}}
 	if limit <= 0 {
 		g.L = defaultLimit
 	}
@@ -287,6 +346,18 @@ func startGroup(c *driver.Ctx, limit int64, ls listSpec) (*group, error) {
 		return nil, err
 	}
 	srv.Handler = g.outer(srv.Handler)
+	srv.ConnContext = func(ctx context.Context, _ net.Conn) context.Context {
+		return context.WithValue(ctx, connKey{}, &connInfo{})
+	}
+	srv.ConnState = func(c net.Conn, st http.ConnState) {
+		g.mu.Lock()
+		if st == http.StateClosed || st == http.StateHijacked {
+			delete(g.conns, c)
+		} else {
+			g.conns[c] = st
+		}
+		g.mu.Unlock()
+	}
 	g.srv = srv
 	g.url = "http://" + ln.Addr().String() + "/c16"
 	go srv.Serve(ln)
@@ -513,6 +584,7 @@ func (g *group) exec(d *reqDesc, body []byte) outcome {
 	req = req.WithContext(httptrace.WithClientTrace(req.Context(), &httptrace.ClientTrace{GotConn: func(ci httptrace.GotConnInfo) {
 		k := ci.Conn.LocalAddr().String()
 		g.mu.Lock()
+		o.gotConns++
 		o.prevOnConn = g.connHist[k]
 		g.connHist[k] = fmt.Sprintf("%+v", *d)
 		g.mu.Unlock()
@@ -522,6 +594,28 @@ func (g *group) exec(d *reqDesc, body []byte) outcome {
 	req.Header.Set("X-Buf", strconv.Itoa(d.Buf))
 	if setCE != "" {
 		req.Header["Content-Encoding"] = []string{setCE}
+	}
+	if d.Replay != "" {
+		// Mark the POST idempotent (net/http replays such a request when a reused connection dies) and make sure
+		// the connection it will use is a reused one: a primer exchange through the same client leaves one idle.
+		hk := "Idempotency-Key"
+		if len(d.ID)%2 == 0 {
+			hk = "X-Idempotency-Key"
+		}
+		req.Header.Set(hk, d.ID)
+		g.prime(cl, d.ID+"-primer")
+		switch d.Replay {
+		case "kill-after-body":
+			req.Header.Set("X-Kill", "body")
+			replayAttempts.Add(1)
+		case "kill-after-headers":
+			req.Header.Set("X-Kill", "headers")
+			replayAttempts.Add(1)
+		case "idle-close":
+			if g.closeIdleServerSide() > 0 {
+				replayAttempts.Add(1)
+			}
+		}
 	}
 	var resp *http.Response
 	if pv, stack := driver.Catch(func() { resp, err = cl.Do(req) }); pv != nil {
@@ -540,6 +634,50 @@ func (g *group) exec(d *reqDesc, body []byte) outcome {
 		o.status = resp.StatusCode
 	}
 	return o
+}
+
+// prime sends a one-byte request through the client so that its transport holds an idle keep-alive connection.
+func (g *group) prime(cl *http.Client, id string) {
+	ctx, cancel := context.WithTimeout(context.Background(), netGuard)
+	defer cancel()
+	req, err := http.NewRequestWithContext(ctx, http.MethodPost, g.url, bytes.NewReader([]byte{'p'}))
+	if err != nil {
+		return
+	}
+	req.Header.Set("Content-Type", "application/octet-stream")
+	req.Header.Set("X-Case", id)
+	if resp, err := cl.Do(req); err == nil {
+		io.Copy(io.Discard, io.LimitReader(resp.Body, 1<<16))
+		resp.Body.Close()
+	}
+	g.take(id)
+}
+
+// closeIdleServerSide closes, from the server's end, every connection the server holds idle (it waits, logically,
+// until the server has marked the primed connection idle) and returns how many it closed. Whether the client's
+// transport notices before it sends the next request is up to the scheduler: both paths are legal for net/http.
+func (g *group) closeIdleServerSide() int {
+	for spin := 0; spin < 20000; spin++ {
+		var idle []net.Conn
+		g.mu.Lock()
+		for c, st := range g.conns {
+			if st == http.StateIdle {
+				idle = append(idle, c)
+			}
+		}
+		g.mu.Unlock()
+		if len(idle) > 0 {
+			for _, c := range idle {
+				c.Close()
+			}
+			return len(idle)
+		}
+		if g.active.Load() == 0 && spin > 2000 {
+			return 0
+		}
+		time.Sleep(50 * time.Microsecond)
+	}
+	return 0
 }
 
 // settle waits (logically) until no request is inside the handler chain any more. (Connection states are
@@ -628,9 +766,39 @@ func (g *group) evaluate(d *reqDesc, body []byte, o outcome, retried bool) (agai
 	if rc.gotN > L {
 		vio("limit", "over-read", fmt.Sprintf("handler read %d bytes with max_request_body_size %d (Content-Encoding %q)", rc.gotN, L, d.CE))
 	}
-	if rc.innerCalls > 1 || rc.outerSeen > 1 {
+	if rc.innerCalls > 1 || rc.outerSeen > 1+rc.killed {
 		if !retried {
-			vio("handler-calls", "-", fmt.Sprintf("handler invoked %d times for one request", rc.innerCalls))
+			vio("handler-calls", "-", fmt.Sprintf("handler invoked %d times for one request (%d arrivals at the front end, %d cut off)", rc.innerCalls, rc.outerSeen, rc.killed))
+		}
+	}
+	replayed := ""
+	if d.Replay != "" {
+		wit["replay"] = map[string]any{"front_end_cut_first_arrival": rc.killed, "arrivals": rc.outerSeen, "connections_obtained_by_transport": o.gotConns,
+			"first_arrival_content_length": rc.killCL, "first_arrival_body_read": rc.killRead, "first_arrival_crc32": rc.killCRC, "final_arrival_content_length": rc.wireCL, "final_arrival_consumed": rc.wireRead, "final_arrival_crc32": rc.wireCRC}
+		switch {
+		case rc.killed > 0 && rc.outerSeen > rc.killed:
+			// net/http replayed the request: the replay must be the same request on the wire
+			replayed = "replayed"
+			replaysObserved.Add(1)
+			c.Observe("replayed_exchanges(second arrival at the front end)", 1)
+			c.Distinct("replayed_classes", d.Client, d.SizeCls, d.Replay)
+			if rc.wireCL != rc.killCL {
+				vio("replay", "replayed", fmt.Sprintf("the replayed %q request announces Content-Length %d, the first attempt announced %d", d.CE, rc.wireCL, rc.killCL))
+			} else if rc.killFull && rc.wireRead == rc.wireCL && rc.killRead == rc.killCL && rc.wireCRC != rc.killCRC {
+				vio("replay", "replayed", fmt.Sprintf("the replayed %q request carries different body bytes than the first attempt (crc32 %08x vs %08x, %d bytes)", d.CE, rc.wireCRC, rc.killCRC, rc.wireCL))
+			} else if rc.killFull && rc.wireRead == rc.wireCL {
+				c.Observe("replay_wire_bytes_identical", 1)
+			}
+		case rc.killed > 0:
+			replayed = "cut-not-replayed"
+			c.Observe("replay_cut_but_no_second_arrival", 1)
+		case d.Replay == "idle-close" && o.gotConns > 1:
+			replayed = "replayed"
+			replaysObserved.Add(1)
+			c.Observe("replayed_exchanges(after server-side idle close)", 1)
+		default:
+			replayed = "unreplayed"
+			c.Observe("replay_cases_unreplayed", 1)
 		}
 	}
 
@@ -767,7 +935,10 @@ func (g *group) evaluate(d *reqDesc, body []byte, o outcome, retried bool) (agai
 			return false
 		}
 	}
-	c.Nontrivial(d.Mode, algoClass(d.CE), lvl, d.SizeCls, rel, d.List)
+	c.Nontrivial(d.Mode, algoClass(d.CE), lvl, d.SizeCls, rel, d.List, replayed)
+	if replayed == "replayed" && exact {
+		c.Observe("replayed_and_delivered_exactly", 1)
+	}
 	c.Distinct("algo_level", d.Mode, d.CE, lvl)
 	c.Distinct("buffer_sizes", d.Buf)
 	return false
@@ -952,6 +1123,24 @@ func (g *group) plan(rng *rand.Rand, nRandom int) []*reqDesc {
 			break
 		}
 	}
+	// 3b. replay dimension: every client compression type (and none), the front end cuts the reused connection once
+	if !big {
+		for _, t := range clientTypes {
+			for _, sc := range []string{"L", []string{"1", "L-1", "L+1", "small", "medium", "blk+1", "nearL"}[rng.Intn(7)]} {
+				d := g.newDesc("toclient")
+				d.Client, d.CE, d.Codec = t, ceOfType(t), ceOfType(t)
+				if d.CE != "" && rng.Intn(2) == 0 {
+					lv := levelsFor(configcompression.Type(t))
+					d.Level = lv[rng.Intn(len(lv))]
+				}
+				d.Kind, d.SizeCls, d.BodySeed = kinds[rng.Intn(len(kinds))], sc, rng.Int63()
+				d.Size = sizeFor(rng, sc, g.L, d.CE)
+				d.Buf = pickBuf(rng, d.Size)
+				d.Replay = "kill-after-body"
+				add(d)
+			}
+		}
+	}
 	// 4. random draws
 	for i := 0; i < nRandom; i++ {
 		var d *reqDesc
@@ -998,6 +1187,20 @@ func (g *group) plan(rng *rand.Rand, nRandom int) []*reqDesc {
 			d.SizeCls = "small"
 		}
 		d.Buf = pickBuf(rng, d.Size)
+		if d.Mode == "toclient" && !big && rng.Intn(8) == 0 {
+			switch p := rng.Intn(10); {
+			case p < 6 || d.Size > 2048 || d.CE == "":
+				d.Replay = "kill-after-body"
+			case p < 8:
+				// only while headers and body leave the client in one write: a cut in the middle of the client's
+				// writing is a broken connection for net/http, which it does not replay. That holds for small
+				// compressed requests (in-memory buffer body); without compression otelhttp's body wrapper makes
+				// net/http flush the headers first, so those are only cut after the body.
+				d.Replay = "kill-after-headers"
+			default:
+				d.Replay = "idle-close"
+			}
+		}
 		add(d)
 	}
 	return out
@@ -1133,9 +1336,10 @@ func run(c *driver.Ctx) {
 			if g.L == defaultLimit {
 				par = 1
 			}
-			end := off + par
-			if end > len(plan) {
-				end = len(plan)
+			end := off + 1
+			// replay cases run alone: another exchange must not take the primed idle connection
+			for end < len(plan) && end-off < par && plan[off].Replay == "" && plan[end].Replay == "" {
+				end++
 			}
 			g.runWave(plan[off:end], false)
 			off = end
@@ -1149,18 +1353,25 @@ func run(c *driver.Ctx) {
 	}
 	sort.Strings(names)
 	c.Observe("client_configs_built", int64(len(names)))
+	c.Observe("replay_attempts", replayAttempts.Load())
+	if c.Only < 0 && replayAttempts.Load() >= 10 && replaysObserved.Load() == 0 {
+		// the replay dimension observed nothing on this shard: not a verdict, the run must not count as "held"
+		replayFloorFailed = true
+		c.Note("replay floor: %d exchanges were sent with a cut order but no request arrived twice at the front end", replayAttempts.Load())
+	}
 }
 
 func main() {
 	driver.Main(driver.Spec{
 		ID:    "C16",
 		Level: "exploration",
-		Rule: "a case is one HTTP exchange through confighttp's client and/or server middleware; cases are grouped by server configuration (max_request_body_size x compression_algorithms list), each group = directed sweep (every client compression type x sizes {0,1,limit-1,limit,limit+1} x {compressible,incompressible}; every hand-made Content-Encoding value; one decompression bomb per codec) + seeded random draws (type x every level ValidateParams accepts x size class incl. codec block boundaries +-1 x body kind x handler buffer size x chunked/sized, hand-compressed variants, truncated streams); " +
+		Rule: "a case is one HTTP exchange through confighttp's client and/or server middleware; cases are grouped by server configuration (max_request_body_size x compression_algorithms list), each group = directed sweep (every client compression type x sizes {0,1,limit-1,limit,limit+1} x {compressible,incompressible}; every hand-made Content-Encoding value; one decompression bomb per codec) + seeded random draws (type x every level ValidateParams accepts x size class incl. codec block boundaries +-1 x body kind x handler buffer size x chunked/sized, hand-compressed variants, truncated streams) + the replay dimension (ToClient exchanges marked idempotent whose reused keep-alive connection is cut once by the front end - after the body, after the headers of a single-write request, or by a server-side close of the idle connection - so that http.Transport replays the compressed request through GetBody; every client compression type + none); " +
 			"distinct = (mode, algorithm or header class, level, size class, relation to the limit {within, wire-over, decoded-over, not-enabled, listed-unsupported, corrupt}, decoder list); every counted case is non-trivial (it reached the middleware and was decided by the oracle)",
 		Assumptions: []string{
 			"'within limit' means max(size on the wire, decoded size) <= max_request_body_size, because the middleware deliberately applies the same limit to the compressed request; the wire size is the Content-Length measured by an observer handler in front of the chain (bytes consumed for chunked requests); decoded<=limit<wire only requires 'delivered exactly or refused with a client error'",
 			"Content-Encoding values that differ from an enabled one only in case or white space, 'identity', and a request without encoding when \"\" is not in the list may either be rejected cleanly or be treated as the equivalent coding",
 			"truncated compressed streams are only subject to the universal rules (read <= limit, no invented bytes, no panic): snappy framing has no end marker",
+			"replay dimension: the front end only cuts a connection that already served a request (for the client: a reused one) and, for bodies that need more than one write, only after it has read the whole request, because net/http replays idempotent requests only in these situations; a replay is counted when the same request id arrives a second time at the front end; a shard that sent >= 10 cut orders and saw no replay exits 3 (infrastructure, exit 2 of the check); HTTP/2 GOAWAY replays are not exercised (the loop-back hop is HTTP/1.1)",
 			"a client-side timeout (90 s guard) is inconclusive; another transport error is repeated once on a fresh connection and only counts when it repeats",
 		},
 		TrustedBase:   []string{"net/http client and server", "compress/gzip, compress/zlib, github.com/golang/snappy, github.com/klauspost/compress/zstd, github.com/pierrec/lz4/v4 as used by the harness to hand-compress and by the code under test"},
@@ -1170,4 +1381,9 @@ func main() {
 		Run:           run,
 		MaxSamples:    1,
 	})
+	// only reached in a child (the parent exits inside driver.Main), after the shard result was written
+	if replayFloorFailed {
+		fmt.Fprintln(os.Stderr, "INFRA: replay floor not reached: no exchange was replayed by net/http on this shard although connections were cut")
+		os.Exit(3)
+	}
 }
